@@ -1588,7 +1588,7 @@ pub fn generate(prop: &str, rng: &mut Rng, plan: &mut Plan, index: u64) {
         }
     }
     // a parent that runs with some of its standard descriptors closed
-    if matches!(prop, "C05" | "C07" | "C08") && sp.threads == 0 && rng.chance(1, 6) {
+    if matches!(prop, "C05" | "C07" | "C08" | "C17" | "C18") && sp.threads == 0 && rng.chance(1, 6) {
         let merge = sp.spawns.iter().any(|s| [s.stdin, s.stdout, s.stderr].contains(&RedirSpec::Merge));
         if !merge {
             plan.parent.closed_std = 1 + rng.below(7) as u8;
